@@ -23,6 +23,8 @@ import (
 //   Rx = like Rl, but under a parent context that thread "pc" cancels at an
 //        arbitrary instant
 //   W  = unlock := Lock(); cs; unlock()
+//   H<k> = writer that HOLDS for k half grace periods (H1 H2 H3 H6) before unlock()
+//   S<n> = sleep n units (1 unit = grace/10)
 // A script may start with Z = sleep half a grace period. Shutdown: thread "sd"
 // cancels Run's context at t=0 ("s0") or after half a grace period ("s5").
 // ---------------------------------------------------------------------------
@@ -38,6 +40,9 @@ type ocReader struct {
 	name            string
 	op              string
 	reqStep         int
+	reqTime         time.Duration
+	blockers        []*ocWriter // writers between grant and unlock when the reader asked
+	parentDone      *ocCancel
 	admitted        bool
 	rctx            context.Context
 	parentCancelled *bool
@@ -47,15 +52,56 @@ type ocReader struct {
 }
 
 type ocWriter struct {
-	name      string
-	reqTime   time.Duration
-	reqStep   int
-	granted   bool
-	grantStep int
-	unlocking bool
+	name       string
+	reqTime    time.Duration
+	reqStep    int
+	blockers   []*ocWriter // writers between grant and unlock when this one asked
+	granted    bool
+	grantStep  int
+	unlocking  bool
+	unlockTime time.Duration
 }
 
-func mkOuter(threads [][]string, shutdown string, pcDelay time.Duration) *mc.Exec {
+// ocCancel records when the "pc" thread's cancel of a parent context returned.
+type ocCancel struct {
+	returned bool
+	at       time.Duration
+}
+
+// ocCfg are the scenario-level knobs of an OuterCancel harness.
+type ocCfg struct {
+	shutdown string        // "", "s0", "s5"
+	pcDelay  time.Duration // when thread "pc" cancels the parent contexts
+	timeline bool          // the scenario runs with ClockLast: time moves only at quiescence
+	// prompt (timeline mode only): a reader whose context has ended must be
+	// back from RLock at that very instant. Only set where the reader's
+	// request is the one the Run loop is handling: the unchanged code does not
+	// look at a request that sits in the channel behind a writer being served
+	// (or queued) until that writer has been granted.
+	prompt bool
+}
+
+func holdersNow(ws []*ocWriter) []*ocWriter {
+	var out []*ocWriter
+	for _, w := range ws {
+		if w.granted && !w.unlocking {
+			out = append(out, w)
+		}
+	}
+	return out
+}
+
+func latestUnlock(t time.Duration, blockers []*ocWriter) time.Duration {
+	for _, b := range blockers {
+		if b.unlocking && b.unlockTime > t {
+			t = b.unlockTime
+		}
+	}
+	return t
+}
+
+func mkOuter(threads [][]string, cfg ocCfg) *mc.Exec {
+	shutdown, pcDelay := cfg.shutdown, cfg.pcDelay
 	var (
 		o              *lock.OuterCancel
 		readers        []*ocReader
@@ -67,6 +113,33 @@ func mkOuter(threads [][]string, shutdown string, pcDelay time.Duration) *mc.Exe
 	)
 	log := func(format string, a ...any) {
 		hist = append(hist, fmt.Sprintf("%d:", int(mc.ModelNow()/ocUnit))+fmt.Sprintf(format, a...))
+	}
+	// graceOver: the grace period some writer owes reader r is over. The
+	// reference is the unchanged code's: the grace timer of a reader starts
+	// when the writer's request is SERVED (the Run loop has taken the hold
+	// slot for it and starts cancelling the registered readers), which is
+	//   - not before the writer asked, nor before every writer that held the
+	//     slot when it asked has called its unlock (time spent queueing does
+	//     NOT count), and
+	//   - not before r was registered, i.e. not before r asked nor before
+	//     every writer that held the slot when r asked has called its unlock.
+	// Only a writer that was not yet granted when r asked can cancel r.
+	graceOver := func(r *ocReader) bool {
+		now := mc.ModelNow()
+		reg := latestUnlock(r.reqTime, r.blockers)
+		for _, w := range writers {
+			if w.granted && w.grantStep <= r.reqStep {
+				continue
+			}
+			served := latestUnlock(w.reqTime, w.blockers)
+			if served < reg {
+				served = reg
+			}
+			if served+ocGrace <= now {
+				return true
+			}
+		}
+		return false
 	}
 	// justify: a reader context found cancelled before the reader released.
 	justify := func(r *ocReader) {
@@ -86,14 +159,10 @@ func mkOuter(threads [][]string, shutdown string, pcDelay time.Duration) *mc.Exe
 		if shutdownCalled {
 			return // shutdown
 		}
-		for _, w := range writers {
-			// a writer can only cancel readers registered before it was
-			// handled, i.e. it was not yet granted when the reader asked
-			if w.reqTime+ocGrace <= now && (!w.granted || w.grantStep > r.reqStep) {
-				return // a writer, not before its request time + grace
-			}
+		if graceOver(r) {
+			return // a writer, not before the grace period
 		}
-		mc.Fail("reader context cancelled although it did not release, its parent was not cancelled, there is no shutdown and no writer's request time + grace has passed\nreader %s at t=%v, grace %v, writers=%s; history=%v", r.name, now, ocGrace, fmtWriters(writers), hist)
+		mc.Fail("reader context cancelled although it did not release, its parent was not cancelled, there is no shutdown and no writer's grace period (from when its request was served, the reader being registered) has passed\nreader %s (asked t=%v) at t=%v, grace %v, writers=%s; history=%v", r.name, r.reqTime, now, ocGrace, fmtWriters(writers), hist)
 	}
 	onAdmit := func(r *ocReader) {
 		log("%s+", r.name)
@@ -114,17 +183,6 @@ func mkOuter(threads [][]string, shutdown string, pcDelay time.Duration) *mc.Exe
 				mc.Fail("reader admitted with a live context between a writer's grant and its unlock\nreader %s, writer %s; history=%v", r.name, w.name, hist)
 			}
 		}
-	}
-	// graceOver: some writer that could have cancelled r (not yet granted when
-	// r asked) requested at least a grace period ago.
-	graceOver := func(r *ocReader) bool {
-		now := mc.ModelNow()
-		for _, w := range writers {
-			if w.reqTime+ocGrace <= now && (!w.granted || w.grantStep > r.reqStep) {
-				return true
-			}
-		}
-		return false
 	}
 	onGrant := func(w *ocWriter) {
 		log("%s+", w.name)
@@ -172,6 +230,7 @@ func mkOuter(threads [][]string, shutdown string, pcDelay time.Duration) *mc.Exe
 		mc.GoNamed("run", func() { o.Run(runCtx) })
 		type pcEntry struct {
 			flag   *bool
+			done   *ocCancel
 			cancel context.CancelFunc
 		}
 		var pcs []pcEntry
@@ -180,36 +239,57 @@ func mkOuter(threads [][]string, shutdown string, pcDelay time.Duration) *mc.Exe
 			tname := fmt.Sprintf("t%d", i)
 			parents := make([]context.Context, len(script))
 			flags := make([]*bool, len(script))
+			dones := make([]*ocCancel, len(script))
 			for k, op := range script {
 				parents[k] = context.Background()
 				if op == "Rx" || op == "Rh" {
 					ctx, cancel := mc.CtxWithCancel(context.Background())
-					f := new(bool)
-					parents[k], flags[k] = ctx, f
-					pcs = append(pcs, pcEntry{f, cancel})
+					f, d := new(bool), &ocCancel{}
+					parents[k], flags[k], dones[k] = ctx, f, d
+					pcs = append(pcs, pcEntry{f, d, cancel})
 				}
 			}
 			mc.GoNamed(tname, func() {
 				for k, op := range script {
 					name := fmt.Sprintf("%s.%d%s", tname, k, op)
+					if op[0] == 'S' {
+						mc.TimeSleep(time.Duration(op[1]-'0') * ocUnit)
+						continue
+					}
 					switch op {
 					case "Z":
 						mc.TimeSleep(ocGrace / 2)
-					case "W":
-						w := &ocWriter{name: name, reqTime: mc.ModelNow(), reqStep: mc.Step()}
+					case "W", "H1", "H2", "H3", "H6":
+						w := &ocWriter{name: name, reqTime: mc.ModelNow(), reqStep: mc.Step(), blockers: holdersNow(writers)}
 						writers = append(writers, w)
 						log("%s?", name)
 						unlock := o.Lock()
 						w.granted, w.grantStep = true, mc.Step()
 						onGrant(w)
-						mc.Yield()
-						w.unlocking = true
+						if op[0] == 'H' {
+							mc.TimeSleep(time.Duration(op[1]-'0') * ocGrace / 2)
+						} else {
+							mc.Yield()
+						}
+						w.unlocking, w.unlockTime = true, mc.ModelNow()
 						log("%s-", name)
 						unlock()
 					default:
-						r := &ocReader{name: name, op: op, reqStep: mc.Step(), parentCancelled: flags[k]}
+						r := &ocReader{name: name, op: op, reqStep: mc.Step(), reqTime: mc.ModelNow(), blockers: holdersNow(writers), parentCancelled: flags[k], parentDone: dones[k]}
 						readers = append(readers, r)
 						rctx, release, err := o.RLock(parents[k])
+						if d := r.parentDone; cfg.timeline && cfg.prompt && d != nil && d.returned && !shutdownCalled {
+							// timeline mode: time moves only when nothing can run, so
+							// a waiter whose context has ended returns at that very
+							// instant (or at the instant of its call if it ended before)
+							since := d.at
+							if r.reqTime > since {
+								since = r.reqTime
+							}
+							if now := mc.ModelNow(); now > since {
+								mc.Fail("a waiter whose context ended kept waiting\nreader %s asked at t=%v, its context was cancelled at t=%v, RLock returned (err=%v) only at t=%v; history=%v", name, r.reqTime, d.at, err, now, hist)
+							}
+						}
 						if err != nil {
 							log("%s!%v", name, err)
 							continue // holds nothing
@@ -251,6 +331,7 @@ func mkOuter(threads [][]string, shutdown string, pcDelay time.Duration) *mc.Exe
 				for _, p := range pcs {
 					*p.flag = true
 					p.cancel()
+					p.done.returned, p.done.at = true, mc.ModelNow()
 				}
 			})
 		}
@@ -312,6 +393,10 @@ func outerClass(name, shutdown string) string {
 	switch {
 	case shutdown != "":
 		return "lock.OuterCancel/with-shutdown"
+	case strings.Contains(name, "H6 | S1;Rx"):
+		return "lock.OuterCancel/queued-reader-context-ends"
+	case strings.HasPrefix(name, "H"):
+		return "lock.OuterCancel/reader-admitted-between-writers-grace"
 	case strings.Contains(name, "Rh"):
 		return "lock.OuterCancel/holding-reader-parent-cancelled"
 	case strings.Contains(name, "Rx"):
@@ -339,7 +424,7 @@ func outerScenarios() []hx.Scenario {
 		sc := hx.Scenario{
 			Name: full, Class: outerClass(name, shutdown), ThoroughOnly: thorough,
 			Opts: mc.Options{Delay: delay, MinBound: bound, Bound: bound, AutoClock: true, Horizon: 20 * ocGrace, MaxSteps: 6000},
-			Mk:   func() *mc.Exec { return mkOuter(th, shutdown, 0) },
+			Mk:   func() *mc.Exec { return mkOuter(th, ocCfg{shutdown: shutdown}) },
 		}
 		if quickBound < bound {
 			sc.QuickBound, sc.QuickMin = hx.Ptr(quickBound), hx.Ptr(quickBound)
@@ -423,7 +508,7 @@ func outerParentScenarios() []hx.Scenario {
 					sc := hx.Scenario{
 						Name: full, Class: outerClass(name, ""),
 						Opts: mc.Options{Delay: true, MinBound: 2, Bound: 2, AutoClock: true, ClockLast: tl, Horizon: 20 * ocGrace, MaxSteps: 6000},
-						Mk:   func() *mc.Exec { return mkOuter(th, "", pcDelay) },
+						Mk:   func() *mc.Exec { return mkOuter(th, ocCfg{pcDelay: pcDelay, timeline: tl}) },
 					}
 					if second != "" && !tl {
 						// 3 callers in race mode: ~2*10^4 schedules at bound 2
@@ -431,6 +516,53 @@ func outerParentScenarios() []hx.Scenario {
 					}
 					out = append(out, sc)
 				}
+			}
+		}
+	}
+	return out
+}
+
+// outerQueueScenarios: two small three-party families with a writer that
+// HOLDS for a long time.
+//
+// "outerq" (grace reference): W1 holds for k x grace/2 (k = 1 2 3 6), reader R
+// (Rl lazy / Rk holding on) asks at t=1 or 2 while W1 holds, writer W2 asks at
+// t=2 or 1 (after / before R). After W1 unlocks R is admitted and W2 served:
+// R must keep its full grace period from then on (time W2 spent queueing does
+// not count).
+//
+// "outerw" (queued reader's context ends): W1 holds for 3 grace periods, reader
+// Rx asks at t=1 under a parent context that "pc" cancels at t=1 (racing with
+// the call) or t=6 (half a grace later), optionally with a second reader or
+// writer queued behind it at t=2. In timeline mode RLock must return at the
+// instant of the cancellation; always: it holds nothing, nobody deadlocks.
+func outerQueueScenarios() []hx.Scenario {
+	var out []hx.Scenario
+	add := func(prefix, name string, cfg ocCfg) {
+		th := parseScen(name)
+		full := prefix + " " + name
+		if cfg.pcDelay > 0 {
+			full += fmt.Sprintf(" pc@%d", int(cfg.pcDelay/ocUnit))
+		}
+		if cfg.timeline {
+			full += " tl"
+		}
+		out = append(out, hx.Scenario{
+			Name: full, Class: outerClass(name, ""),
+			Opts: mc.Options{Delay: true, MinBound: 2, Bound: 2, AutoClock: true, ClockLast: cfg.timeline, Horizon: 20 * ocGrace, MaxSteps: 6000},
+			Mk:   func() *mc.Exec { return mkOuter(th, cfg) },
+		})
+	}
+	for _, tl := range []bool{true, false} {
+		for _, h := range []string{"H1", "H2", "H3", "H6"} {
+			for _, r := range []string{"Rl", "Rk"} {
+				add("outerq", h+" | S1;"+r+" | S2;W", ocCfg{timeline: tl})
+				add("outerq", h+" | S2;"+r+" | S1;W", ocCfg{timeline: tl})
+			}
+		}
+		for _, pc := range []time.Duration{1 * ocUnit, 6 * ocUnit} {
+			for _, third := range []string{"", " | S2;Rp", " | S2;W"} {
+				add("outerw", "H6 | S1;Rx"+third, ocCfg{pcDelay: pc, timeline: tl, prompt: tl})
 			}
 		}
 	}
